@@ -306,7 +306,7 @@ func checkTilingEvents(env *Env, hs map[string]*histInfo) []Violation {
 	for _, id := range order {
 		a := allocs[id]
 		e := a.ev
-		if env.isInternal(e.Name) {
+		if env.isInternalID(e.Name, e.Tags) {
 			continue
 		}
 		h := hs[idKey(e.Name, e.Tags)]
@@ -368,7 +368,7 @@ func checkBucketDeliveries(env *Env, ops []*OpRec, hs map[string]*histInfo) []Vi
 	got := map[string]map[string]int64{}
 	total := map[string]int64{}
 	for _, d := range env.Deliveries() {
-		if d.Kind != EvHVal && d.Kind != EvHDur || env.isInternal(d.Name) {
+		if d.Kind != EvHVal && d.Kind != EvHDur || env.isInternalID(d.Name, d.Tags) {
 			continue
 		}
 		k := idKey(d.Name, d.Tags)
